@@ -523,6 +523,20 @@ func init() {
 		return -1
 	}
 	stdStubs["internal/bytealg.IndexByte"] = stdStubs["bytes.IndexByte"]
+	// bytealg.Count / CountString: number of bytes equal to c (one fork per symbolic comparison)
+	stdStubs["internal/bytealg.Count"] = func(fr *frame, a []value) value {
+		p := fr.i.p
+		s := bytesOf(a[0])
+		ct := p.byteTerm(a[1])
+		n := 0
+		for _, b := range s {
+			if p.branch(p.ctx.Eq(p.byteTerm(b), ct)) {
+				n++
+			}
+		}
+		return n
+	}
+	stdStubs["internal/bytealg.CountString"] = stdStubs["internal/bytealg.Count"]
 	stdStubs["internal/bytealg.IndexByteString"] = stdStubs["bytes.IndexByte"]
 	// sort.Slice: the real pdqsort_func is interpreted; only the two reflection
 	// helpers (length, swapper) are provided by the engine.
